@@ -112,6 +112,9 @@ def counterexample(con, ob, extra=(), tries=4):
     """Try to turn a refuted obligation into concrete arguments on which the contract fails
     natively.  -> (status, cargs, native_result, solver_output)"""
     rec = ob.meta['record']
+    if getattr(con, 'no_native', False):
+        r = solve.check(inst_hyps(ob) + list(extra) + [tm.mk_not(ob.goal)], solvers=('z3', 'cvc5'), timeout=10.0)
+        return 'no-failing-input-found', None, None, r.get('output', '')[:4000]
     ivars = list(C.input_vars(rec.args_in).values())
     block = []
     last_out = ''
